@@ -107,7 +107,12 @@ def _one_impl(sc, algpair, idx: int, seed: int):
     enc_key = (priv if tr == "jws" else pub)
     dec_key = (pub if tr == "jws" else priv)
     if sc["keyarg"] == "keyset":
-        enc_key, dec_key = KeySet([enc_key]), KeySet([dec_key])
+        enc_key = KeySet([enc_key])
+    if sc.get("deckey", sc["keyarg"]) == "keyset":
+        # a set holding exactly the key; when the token names a kid the set's key carries it
+        dec_key = KeySet([dec_key if sc["keyarg"] == "keyset" else (J.fresh_jkey({**(pubj if tr == "jws" else jwk), "kid": "kid-of-the-set"}) if idx % 2 else dec_key)])
+    elif sc["keyarg"] == "keyset" and idx % 2:
+        dec_key = J.fresh_jkey(pubj if tr == "jws" else jwk)          # a plain key without kid decodes a token that names one
     exp_claims = None
     if sc["madeby"] == "library":
         claims, exp_claims = ({}, {}) if sc["payload"] == "empty_object" else gen_claims(rnd)
@@ -171,6 +176,10 @@ def _one_impl(sc, algpair, idx: int, seed: int):
             fails.append(("header-differs", json.dumps(t.header)[:100]))
         if sc["keyarg"] == "keyset" and t.header.get("kid") != the_kid:
             fails.append(("kid-missing", json.dumps(t.header)[:100]))
+        # the header handed back is the one on the wire, whatever kind of key argument decoded it
+        wire = json.loads(R.b64d(tok.split(".")[0]))
+        if t.header != wire:
+            fails.append(("header-not-as-on-wire", json.dumps(t.header)[:100]))
         # the returned objects belong to the caller: editing them must not change what a later decode returns
         if not fails:
             want_h, want_c = json.dumps(t.header, sort_keys=True), json.dumps(t.claims, sort_keys=True, default=str)
@@ -196,7 +205,7 @@ def run_chunk(args):
 
 
 def sig(sc, what) -> str:
-    return f"jwt:{sc['tr']} typ={sc['typ']} key={sc['keyarg']} payload={sc['payload']} tampered={sc['tampered']} by={sc['madeby']} -> {what}"
+    return f"jwt:{sc['tr']} typ={sc['typ']} key={sc['keyarg']}/{sc.get('deckey', sc['keyarg'])} payload={sc['payload']} tampered={sc['tampered']} by={sc['madeby']} -> {what}"
 
 
 
@@ -213,7 +222,7 @@ def one(sc, algpair, idx: int, seed: int):
 def run(ctx: Ctx) -> None:
     thorough = ctx.tier == "thorough"
     r = ctx.tlc("Jwt", timeout=300)
-    for d in ("NonObjectClaims", "TypAlwaysJWT", "HeaderMutated", "PayloadBeforeIntegrity", "NotJsonEscapes"):
+    for d in ("NonObjectClaims", "TypAlwaysJWT", "HeaderMutated", "PayloadBeforeIntegrity", "NotJsonEscapes", "DecodeWritesKid"):
         ctx.sensitivity("Jwt", "Jwt_dev_" + d)
     scs = list({json.dumps(c, sort_keys=True): c for c in r.cases}.values())
     if len(scs) < 300:
